@@ -126,3 +126,18 @@ From VOPyGen Require Gen_extra.
 Theorem C15_independent_predict_reads_the_last_update : Gen_extra.gen_indep_predict_prior_mode = Gen_extra.LastUpdateHoldsNoTargets.
 Proof. reflexivity. Qed.
 Print Assumptions C15_independent_predict_reads_the_last_update.
+
+(* the regenerated predict() of the model list: objective k's mean and variance come from the k-th single-output model and
+   every off-diagonal covariance entry is 0; the correlated wrapper evaluates the model of the last update *)
+From Coq Require QArith.
+From VOPy Require ExtraRefine2.
+From VOPyGen Require Gen_extra2.
+Theorem C15_model_list_prediction_is_diagonal : forall per k l, k < length per -> l < length per ->
+  nth k (fst (Gen_extra2.gen_modellist_predict per)) 0%Q = fst (nth k per (0%Q, 0%Q)) /\
+  nth l (nth k (snd (Gen_extra2.gen_modellist_predict per)) []) 0%Q = (if Nat.eqb k l then snd (nth k per (0%Q, 0%Q)) else 0%Q).
+Proof. exact ExtraRefine2.gen_modellist_predict_spec. Qed.
+Print Assumptions C15_model_list_prediction_is_diagonal.
+
+Theorem C15_correlated_predict_reads_the_last_update : Gen_extra2.gen_correlated_predict_reads_pending_store = false.
+Proof. reflexivity. Qed.
+Print Assumptions C15_correlated_predict_reads_the_last_update.
